@@ -4,7 +4,7 @@
    context key/DERIVE_KEY_MATERIAL): root_output of the mode is subtree_output at counter 0. *)
 From Coq Require Import NArith List Bool.
 From V Require Import Base.Res Base.Word Spec.Compress Spec.Tree Spec.Blake3 Model.Platform Model.RsChunk
-  Model.RsHasher Model.RsXof Model.RsIo Model.Machine Proofs.IoP Proofs.HasherP Proofs.C02P.
+  Model.RsHasher Model.RsXof Model.RsIo Model.Machine Model.SpecMachine Proofs.IoP Proofs.HasherP Proofs.C02P Proofs.MachineRefinesP.
 Import ListNotations.
 Open Scope N_scope.
 
@@ -52,8 +52,26 @@ Example C02_nonvacuous :
             length (h_stack h) = 1%nat.
 Proof. cbv zeta. eexists. split; [vm_compute; reflexivity|]. split; vm_compute; reflexivity. Qed.
 
+(* the functions of the modelled source are exactly the functions the model was written against
+   (gen/GenApi.v is regenerated from /repo on every run; see Model/ApiSurface.v) *)
+From V Require gen.GenApi Model.ApiSurface.
+Theorem C02_api_lib_core : GenApi.api_lib_core = ApiSurface.expected_lib_core.
+Proof. reflexivity. Qed.
+
+Print Assumptions C02_api_lib_core.
 Print Assumptions C02_root_output_of_mode.
+(* END TO END, over the whole case language: whenever the specification-only machine (Model/SpecMachine.v: one byte
+   list + input offset per hasher, (root output, position) per reader, nothing but Spec/) accepts a history of
+   new / update / write / finalize / finalize_xof / count / clone / reset / set_input_offset / finalize_non_root /
+   one-shot functions / merge_subtrees_* / hash_derive_key_context / OutputReader fill, read, position, set_position,
+   seek, clone / RustCrypto trait operations, over any number of hasher and reader instances, the implementation
+   machine produces exactly the same observations and does not panic, on every PlatformOK platform *)
+Theorem C02_machine_refines_spec : forall p, PlatformOK p -> forall pname m ops obs,
+  mode_ok m -> spec_run_case m ops = Some obs -> Machine.run_case p pname m ops = (obs, Ok tt).
+Proof. exact machine_refines_spec. Qed.
+
 Print Assumptions C02_hasher_refines.
+Print Assumptions C02_machine_refines_spec.
 Print Assumptions C02_update_step.
 Print Assumptions C02_history_refines.
 Print Assumptions C02_new_is_empty.
